@@ -17,7 +17,7 @@ Rules
 - Work ONLY in your own scratch git worktree: create it with `git -C /repo worktree add --detach /tmp/mut_{tag}` and work inside /tmp/mut_{tag}. Never modify /repo itself. Do not read or use anything under /verif.
 - Every shell call needs: export GOFLAGS=-mod=mod GOPROXY=off GOSUMDB=off GOTOOLCHAIN=local  (no network).
 - The change must (a) compile (`go build ./...`), (b) pass the existing tests unchanged (`go test -vet=off -count=1 ./...` in /tmp/mut_{tag}), (c) break the property, and (d) need something specific to manifest — a particular length or value, a multi-step sequence of operations, an unusual input, a particular interleaving, or two cooperating sites that each look fine alone — NOT something ordinary use would expose at once. Make it look like a plausible maintainer slip (refactoring error, off-by-one, wrong comparison, missed branch, reordered statements), a few lines, in the non-test Go sources (not in files with the build tag `verif`, not in tests).
-- Deliver in /tmp/mut_{tag}: the change applied in the working tree (uncommitted), `patch.diff` (output of `git diff` for the library change only), a demonstration `demo_test.go` (a Go test placed in the package directory it tests, test names starting with TestDemo) that FAILS with the change and PASSES without it (verify both by stashing the change), and `meta.json` with fields: property ("{pid}"), summary (what was changed), needs (what is needed for the breakage to manifest), commands (what you ran and what you observed). Keep demo_test.go out of patch.diff.
+- Deliver in /tmp/mut_{tag}: the change applied in the working tree (uncommitted), `patch.diff` (output of `git diff` for the library change only), a demonstration `demo_test.go` (a Go test placed in the package directory it tests, test names starting with TestDemo) that FAILS with the change and PASSES without it (verify both; do NOT use `git stash` — it is shared between all worktrees of /repo and other engineers work in parallel — use `git diff > patch.diff; git apply -R patch.diff; …; git apply patch.diff`), and `meta.json` with fields: property ("{pid}"), summary (what was changed), needs (what is needed for the breakage to manifest), commands (what you ran and what you observed). Keep demo_test.go out of patch.diff.
 - Finish with a short report: the diff, why it breaks the property, what it needs to manifest, confirmation that the existing suite passes with it and that the demo fails with / passes without it. Leave the worktree in place.
 {extra}
 Property {pid}: {d['title']}
